@@ -67,7 +67,8 @@ def decode(code):
             b = ["just-before"]  # 1us before the alarm
         bodies.append({"b": b, "probe": probe})
     return {"P": P, "t0": T0[t0], "bodies": bodies, "free_at": free_at if free_at < len(bodies) else None, "free_how": ["free", "with", "free-twice", "with-exception"][(free_how + free_at) % 4],
-            "enter_after": [None, 0, 35, 250][free_at % 4] if free_at % 3 == 0 else None, "second": free_at % 2 == 0}
+            "enter_after": [None, 0, 35, 250][free_at % 4] if free_at % 3 == 0 else None, "second": free_at % 2 == 0,
+            "free_blocked": free_at % 5 == 1}
 
 
 class C16(Lab):
@@ -242,6 +243,24 @@ class C16(Lab):
                 if armed != t0 + (k + 1) * Pq:
                     raise Violation("C16/grid", f"after the {k}-th return the armed alarm is {armed}us, expected t0+{k + 1}*P = {t0 + (k + 1) * Pq}us (t0={t0}, P={Pq}); case: {case}")
             classes.add("P:pool" if P in PERIODS else "P:free")
+            if not freed and case.get("free_blocked"):
+                # the loop thread sits in wait() when the object is freed (endCompetition from another thread):
+                # the blocked wait() has to come back, without an exception
+                seen = self.gate.entries
+                self.worker.q_in.put(delay)
+                with self.gate.cv:
+                    dl = time.time() + 10
+                    while self.gate.entries == seen and time.time() < dl:
+                        self.gate.cv.wait(0.05)
+                if self.gate.entries != seen and self.await_result(0.002) is None:
+                    delay.free()
+                    freed = True
+                    classes.add("freed-while-blocked")
+                    r = self.await_result(10.0)
+                    if r is None:
+                        raise Violation("C16/blocked-wait-not-released", f"wait() still blocked after free(); case: {case}")
+                    if r[0] == "exc":
+                        raise exc_violation("C16", r[1], f"wait() that was blocked while free() was called; case: {case}")
             if freed and case.get("second"):
                 # a new delay is created while the freed one is still referenced, then the old object goes away:
                 # the new one must keep its own notifier and its own grid
